@@ -322,6 +322,54 @@ def inst_case(rnd, recs, ctx):
         ctx.nontrivial(json.dumps([rec["a"], rec["b"]]))
 
 
+def twins_case(rnd, recs, ctx):
+    """a device cabled to TWO neighbours that share a short host name (the same spine number in two sites), rules written for short names:
+    each link is a session of its own; every linked pair becomes one pair record"""
+    from tests.annet.test_mesh.fakes import FakeStorage, FakeDevice, FakeInterface
+    from annet.mesh import MeshExecutor, MeshRulesRegistry, united_ports
+    kind = rnd.choice(["direct", "indirect"])
+    names = ["b2.dc1.ex", "b2.dc2.ex"]
+    a = FakeDevice("a1.ex", [FakeInterface("if%d" % i, nb, "eth0") for i, nb in enumerate(names)] + [FakeInterface("lo0", None, None)])
+    bs = [FakeDevice(nb, [FakeInterface("eth0", "a1.ex", "if%d" % i), FakeInterface("lo0", None, None)]) for i, nb in enumerate(names)]
+    st = FakeStorage()
+    for d in [a] + bs:
+        st.add_device(d)
+        d.storage = st
+    st.search_connections = lambda d1, d2: [(i, d2.find_interface(i.neighbor_port)) for i in d1.interfaces if i.neighbor_fqdn == d2.fqdn]
+    hs = [rnd_table(rnd, "plain", first=True)]
+    if rnd.random() < 0.5:
+        t = rnd_table(rnd, "plain")
+        for side in "LRS":
+            t[side]["f"] = [kv for kv in t[side]["f"] if kv["k"] == "addr"]
+        hs.append(t)
+    runs = {nb: [] for nb in names}
+    for perm in itertools.permutations(range(len(hs))):
+        reg = MeshRulesRegistry(match_short_name=True)
+        for hi in perm:
+            if kind == "direct":
+                reg.direct("a{n}", "b{n}", port_processor=united_ports)(mk_handler(hs[hi], hi))
+            else:
+                reg.indirect("a{n}", "b{n}")(mk_handler(hs[hi], hi))
+        ex = MeshExecutor(reg, st)
+        res, err = {}, {}
+        for d in [a] + bs:
+            try:
+                cfg = ex.execute_for(d)
+                res[d.fqdn] = [(p.hostname, q) for p, q in zip(cfg.peers, proj(cfg))]
+                err[d.fqdn] = False
+            except Exception:
+                res[d.fqdn], err[d.fqdn] = [], True
+        for nb in names:
+            runs[nb].append({"order": list(perm), "errA": err["a1.ex"], "errB": err[nb],
+                             "A": [q for h, q in res["a1.ex"] if h == nb], "B": [q for h, q in res[nb]]})
+    for i, nb in enumerate(names):
+        recs.append({"id": "twins-%d-%d" % (i, len(recs)), "kind": "pair", "hs": [resolve(h) for h in hs], "hs_src": hs, "ipL": L_ADDR.split("/")[0],
+                     "ipR": R_ADDR.split("/")[0], "runs": runs[nb], "ifaceA": ("if%d" % i) if kind == "direct" else "", "ifaceB": "eth0" if kind == "direct" else "",
+                     "ambiguous": False, "meta": {"topology": "a1 -- b2.dc1, a1 -- b2.dc2 (short names)", "rule": kind, "neighbour": nb}})
+        ctx.count(len(runs[nb]))
+        ctx.nontrivial(json.dumps(["twins", nb, hs]))
+
+
 def proj(cfg):
     out = []
     for p in cfg.peers:
@@ -436,6 +484,8 @@ def run(ctx):
             ctx.nontrivial(json.dumps(hs))
     for k in range(150 if quick else 4000):
         chain_case(rnd, recs, ctx)
+    for k in range(40 if quick else 600):
+        twins_case(rnd, recs, ctx)
     # ---- merge laws on model instances per declared merger
     from annet.mesh.peer_models import MeshSession, DirectPeerDTO
     for k in range(300 if quick else 5000):
